@@ -1,0 +1,243 @@
+//! Shims exporting crate-private pieces of the EBR implementation (feature `circ_verif`).
+
+use core::sync::atomic::Ordering;
+
+pub use super::collector::{Collector, LocalHandle};
+pub use super::internal::LocalState;
+use super::internal::Local;
+use super::sync::list::{Entry, IsElement, IterError, List};
+use super::sync::queue::Queue;
+use super::{Guard, RawShared, Tagged};
+
+/// Defers `f` through the collector `guard` belongs to.
+///
+/// # Safety
+///
+/// Same contract as crossbeam's `defer_unchecked`.
+pub unsafe fn defer<F: FnOnce()>(guard: &Guard, f: F) {
+    guard.defer_unchecked(f)
+}
+
+/// Runs `Global::collect` on the collector `guard` belongs to.
+pub fn collect(guard: &Guard) {
+    if let Some(local) = unsafe { guard.local.as_ref() } {
+        local.global().collect(guard);
+    }
+}
+
+/// Runs `Global::try_advance`; returns the epoch value it returned.
+pub fn try_advance(guard: &Guard) -> usize {
+    match unsafe { guard.local.as_ref() } {
+        Some(local) => local.global().try_advance(guard).value(),
+        None => 0,
+    }
+}
+
+/// The epoch of a collector.
+pub fn collector_epoch(c: &Collector) -> usize {
+    c.global_epoch().value()
+}
+
+/// Address of a collector's `Global`.
+pub fn collector_id(c: &Collector) -> usize {
+    &*c.global as *const _ as usize
+}
+
+/// The private state of the participant `guard` belongs to. Must be called on the owning thread.
+pub fn local_state(guard: &Guard) -> Option<LocalState> {
+    unsafe { guard.local.as_ref() }.map(|l| l.verif_state())
+}
+
+/// The private state of the participant behind a handle. Must be called on the owning thread.
+pub fn handle_state(handle: &LocalHandle) -> LocalState {
+    unsafe { (*handle.local).verif_state() }
+}
+
+/// Address of the participant `guard` belongs to (0 for an unprotected guard).
+pub fn local_id(guard: &Guard) -> usize {
+    guard.local as usize
+}
+
+/// (pinned, announced epoch) of the participant at address `local`, read atomically.
+///
+/// # Safety
+///
+/// The participant must not have been freed (it is freed through its own collector, so holding a
+/// guard of that collector taken while the participant was registered is sufficient).
+pub unsafe fn local_epoch_of(local: usize) -> (bool, usize) {
+    (*(local as *const Local)).verif_epoch()
+}
+
+/// A guard that is not attached to any participant.
+///
+/// # Safety
+///
+/// Same contract as crossbeam's `unprotected`.
+pub unsafe fn unprotected_guard() -> Guard {
+    super::unprotected()
+}
+
+/// The collector's Michael-Scott queue.
+pub struct VQueue<T>(Queue<T>);
+
+impl<T: Sync> VQueue<T> {
+    #[allow(missing_docs)]
+    pub fn new() -> Self {
+        Self(Queue::new())
+    }
+    #[allow(missing_docs)]
+    pub fn push(&self, t: T, guard: &Guard) {
+        self.0.push(t, guard)
+    }
+    #[allow(missing_docs)]
+    pub fn try_pop(&self, guard: &Guard) -> Option<T> {
+        self.0.try_pop(guard)
+    }
+    #[allow(missing_docs)]
+    pub fn try_pop_if<F: Fn(&T) -> bool>(&self, condition: F, guard: &Guard) -> Option<T> {
+        self.0.try_pop_if(condition, guard)
+    }
+}
+
+impl<T: Sync> Default for VQueue<T> {
+    fn default() -> Self {
+        Self::new()
+    }
+}
+
+/// An element of [`VList`].
+pub struct VElem {
+    entry: Entry,
+    id: usize,
+}
+
+impl Drop for VElem {
+    fn drop(&mut self) {
+        crate::verif::ev(crate::verif::event::LIST_FREE, self.id, 0);
+    }
+}
+
+impl IsElement<VElem> for VElem {
+    fn entry_of(e: &VElem) -> &Entry {
+        &e.entry
+    }
+
+    unsafe fn element_of(entry: &Entry) -> &VElem {
+        let off = memoffset::offset_of!(VElem, entry);
+        &*((entry as *const Entry as usize - off) as *const VElem)
+    }
+
+    unsafe fn finalize(entry: &Entry, guard: &Guard) {
+        let e = Self::element_of(entry);
+        crate::verif::ev(crate::verif::event::LIST_FINALIZE, e.id, 0);
+        guard.defer_destroy(RawShared::from(e as *const VElem));
+    }
+}
+
+/// A handle to an inserted element (its address).
+#[derive(Clone, Copy, Debug, PartialEq, Eq)]
+pub struct VElemRef(usize);
+
+/// The participant registry's list type, instantiated with a plain element.
+pub struct VList(List<VElem>);
+
+impl VList {
+    #[allow(missing_docs)]
+    pub fn new() -> Self {
+        Self(List::new())
+    }
+
+    /// Inserts a new element with the given id.
+    pub fn insert(&self, id: usize, guard: &Guard) -> VElemRef {
+        let e = RawShared::from_owned(VElem {
+            entry: Entry::default(),
+            id,
+        });
+        let r = VElemRef(crate::verif::expose(e.as_raw()));
+        unsafe { self.0.insert(e, guard) };
+        r
+    }
+
+    /// Marks the element as deleted.
+    ///
+    /// # Safety
+    ///
+    /// Must be called at most once per element, by a thread whose guard was active since before
+    /// the call, like `Local::finalize` does for its own entry.
+    pub unsafe fn delete(&self, e: VElemRef, guard: &Guard) {
+        (*(e.0 as *const VElem)).entry.delete(guard)
+    }
+
+    /// Traverses the list; returns the ids visited and whether the traversal reported a stall.
+    pub fn traverse(&self, guard: &Guard) -> (Vec<usize>, bool) {
+        let mut seen = Vec::new();
+        for e in self.0.iter(guard) {
+            match e {
+                Ok(e) => seen.push(e.id),
+                Err(IterError::Stalled) => return (seen, true),
+            }
+        }
+        (seen, false)
+    }
+}
+
+impl Default for VList {
+    fn default() -> Self {
+        Self::new()
+    }
+}
+
+/// Operations of the tagged-pointer representation on a synthetic word, for a pointee type `T`
+/// chosen by the caller (only its alignment matters).
+pub mod tagged {
+    use super::*;
+
+    fn mk<T>(word: usize) -> Tagged<T> {
+        Tagged::from(word as *mut T)
+    }
+    fn word<T>(t: Tagged<T>) -> usize {
+        t.as_raw() as usize | t.tag() | (t.high_tag() << (usize::BITS - super::super::HIGH_TAG_WIDTH))
+    }
+    #[allow(missing_docs)]
+    pub fn as_raw<T>(w: usize) -> usize {
+        mk::<T>(w).as_raw() as usize
+    }
+    #[allow(missing_docs)]
+    pub fn tag<T>(w: usize) -> usize {
+        mk::<T>(w).tag()
+    }
+    #[allow(missing_docs)]
+    pub fn high_tag<T>(w: usize) -> usize {
+        mk::<T>(w).high_tag()
+    }
+    #[allow(missing_docs)]
+    pub fn is_null<T>(w: usize) -> bool {
+        mk::<T>(w).is_null()
+    }
+    #[allow(missing_docs)]
+    pub fn with_tag<T>(w: usize, tag: usize) -> usize {
+        word(mk::<T>(w).with_tag(tag))
+    }
+    #[allow(missing_docs)]
+    pub fn with_high_tag<T>(w: usize, tag: usize) -> usize {
+        word(mk::<T>(w).with_high_tag(tag))
+    }
+    #[allow(missing_docs)]
+    pub fn ptr_eq<T>(a: usize, b: usize) -> bool {
+        mk::<T>(a).ptr_eq(mk::<T>(b))
+    }
+    #[allow(missing_docs)]
+    pub fn fmt_pointer<T>(w: usize) -> String {
+        format!("{:p}", mk::<T>(w))
+    }
+    #[allow(missing_docs)]
+    pub fn fmt_debug<T>(w: usize) -> String {
+        format!("{:?}", mk::<T>(w))
+    }
+    /// Width of the internal timestamp.
+    pub const HIGH_BITS: u32 = super::super::HIGH_TAG_WIDTH;
+}
+
+/// Keeps `Ordering` referenced when no other item needs it.
+#[allow(dead_code)]
+const _ORD: Ordering = Ordering::SeqCst;
